@@ -240,9 +240,16 @@ func (fv *FuncVC) applyContract(con *Contract, callee *ssa.Function, c *ssa.Call
 	}
 	post := &Env{fv: fv, st: fv.cur, old: pre, vars: env.vars, allocOld: allocOld}
 	fv.bindResults(post, res, callee, con, c.Signature())
-	if callee != nil {
+	if callee != nil && len(callee.FreeVars) > 0 {
+		post.oldVars = map[string]*Val{}
+		nv := map[string]*Val{}
+		for k, v := range post.vars {
+			nv[k] = v
+		}
+		post.vars = nv
 		for i, f := range callee.FreeVars {
 			if i < len(binds) {
+				post.oldVars[f.Name()] = env.vars[f.Name()]
 				post.vars[f.Name()] = fv.loadPlace(fv.cur, fv.placeFromPointer(binds[i]))
 			}
 		}
@@ -529,6 +536,11 @@ func (fv *FuncVC) havocMod(mod map[string]bool, args []*Val) {
 			if name == "alloc" || name == "LOCK" || strings.HasPrefix(name, "VIS$") || strings.HasPrefix(name, "DF$") || strings.HasPrefix(name, "G$") && strings.Contains(name, ".") {
 				continue
 			}
+			// ghost state changes only through contracts: a wildcard write set covers real memory; the
+			// ghosts a callee can change are named explicitly in its (inferred or declared) write set
+			if strings.HasPrefix(name, "GH$") && !mod[name] {
+				continue
+			}
 			fv.heapHavoc(name)
 			fv.afterHeapChange(name)
 		}
@@ -617,6 +629,7 @@ func (fv *FuncVC) callAsserts(keys []string, ord int, args []*Val, callee *ssa.F
 		for k, v := range fv.params {
 			env.vars[k] = v
 		}
+		fv.bindFreeVars(env, fv.cur)
 		for i, a := range args {
 			env.vars[fmt.Sprintf("arg%d", i)] = a
 		}
